@@ -143,8 +143,9 @@ func NewDriver(
 		subscriptions:     map[int][][]byte{},
 		subscriptionsLock: &sync.Mutex{},
 
-		errs: make(chan error),
-		done: make(chan bool),
+		errs:      make(chan error),
+		done:      make(chan bool),
+		closeOnce: &sync.Once{},
 	}
 
 	for _, option := range opts {
@@ -202,7 +203,9 @@ type Driver struct {
 	subscriptionsLock *sync.Mutex
 
 	errs chan error
-	done chan bool
+	// done is closed (once, by Close) to stop the NETCONF read loop.
+	done      chan bool
+	closeOnce *sync.Once
 }
 
 // Open opens the underlying generic.Driver, and by extension the channel.Channel and Transport
@@ -242,6 +245,10 @@ func (d *Driver) Open() (reterr error) {
 		return err
 	}
 
+	// fresh shutdown signalling for this open, Close consumes it
+	d.done = make(chan bool)
+	d.closeOnce = &sync.Once{}
+
 	go d.read()
 
 	return nil
@@ -255,7 +262,12 @@ func (d *Driver) Close() error {
 		d.Transport.Args.Port,
 	)
 
-	d.done <- true
+	// close rather than send: the read loop may be waiting to hand an error to an rpc (after the
+	// peer went away there is nobody to take it), may have never been started, or may already have
+	// been stopped by an earlier Close -- a send would block forever in all of these cases.
+	d.closeOnce.Do(func() {
+		close(d.done)
+	})
 
 	err := d.Channel.Close()
 	if err != nil {
